@@ -48,7 +48,9 @@ fn get_dependencies_from_type(
             SpecialRustType::Option(inner) => {
                 get_dependencies_from_type(inner, types, res, seen);
             }
-            SpecialRustType::Vec(inner) => {
+            SpecialRustType::Vec(inner)
+            | SpecialRustType::Array(inner, _)
+            | SpecialRustType::Slice(inner) => {
                 get_dependencies_from_type(inner, types, res, seen);
             }
             _ => {}
@@ -74,10 +76,11 @@ fn get_enum_dependencies(
                 for variant in &shared.variants {
                     match variant {
                         RustEnumVariant::Unit(_) => {}
-                        RustEnumVariant::AnonymousStruct {
-                            fields: _,
-                            shared: _,
-                        } => {}
+                        RustEnumVariant::AnonymousStruct { fields, shared: _ } => {
+                            for field in fields {
+                                get_dependencies_from_type(&field.ty, types, res, seen)
+                            }
+                        }
                         RustEnumVariant::Tuple { ty, shared: _ } => {
                             get_dependencies_from_type(ty, types, res, seen)
                         }
